@@ -7,6 +7,7 @@ open FimVerif FimVerif.M
 /-- closes a `ReadOnly` goal about a named function; extended below with one rule per function -/
 syntax "ro_base" : tactic
 macro_rules | `(tactic| ro_base) => `(tactic| exact readOnly_pure _)
+macro_rules | `(tactic| ro_base) => `(tactic| exact readOnly_pure' _)
 macro_rules | `(tactic| ro_base) => `(tactic| exact readOnly_raise _)
 macro_rules | `(tactic| ro_base) => `(tactic| exact readOnly_read _)
 macro_rules | `(tactic| ro_base) => `(tactic| exact readOnly_guard _ _)
@@ -26,7 +27,7 @@ macro "ro" : tactic => `(tactic| repeat' (first
   | split))
 
 theorem readOnly_findNode (nid : Nid) : ReadOnly (findNode nid) := by
-  intro s; unfold findNode; split <;> rfl
+  constructor; intro s; unfold findNode; split <;> rfl
 macro_rules | `(tactic| ro_base) => `(tactic| exact readOnly_findNode _)
 
 theorem readOnly_need {α : Type} (o : Option α) (e : Err) : ReadOnly (need o e) := by unfold need; ro
@@ -60,11 +61,11 @@ theorem readOnly_ownerNode (nid : Nid) : ReadOnly (ownerNode nid) := by unfold o
 macro_rules | `(tactic| ro_base) => `(tactic| exact readOnly_ownerNode _)
 
 theorem readOnly_listNames (c : Cls) (k : GNode → Bool) : ReadOnly (listNames c k) := by
-  intro s; unfold listNames; split <;> rfl
+  constructor; intro s; simp only [listNames]; split <;> rfl
 macro_rules | `(tactic| ro_base) => `(tactic| exact readOnly_listNames _ _)
 
 theorem readOnly_findByName (c : Cls) (n : String) : ReadOnly (findByName c n) := by
-  intro s; unfold findByName; split <;> rfl
+  constructor; intro s; unfold findByName; split <;> rfl
 macro_rules | `(tactic| ro_base) => `(tactic| exact readOnly_findByName _ _)
 
 theorem readOnly_childrenOf (p : Nid) (ok : List Cls) (r : Rel) (l : Cls) : ReadOnly (childrenOf p ok r l) := by
@@ -80,7 +81,7 @@ macro_rules | `(tactic| ro_base) => `(tactic| exact readOnly_nodeInterfaces _)
 /-! ### atomic building blocks -/
 
 theorem atomic_addGNode (n : GNode) : Atomic (addGNode n) := by
-  intro s h; unfold addGNode at *; split at h <;> simp_all
+  constructor; intro s h; unfold addGNode at *; split at h <;> simp_all
 
 theorem total_pure' {α : Type} (a : α) : Total (Pure.pure a : M Topo α) := total_pure a
 
